@@ -87,6 +87,8 @@ def c19_1(ck, prog):
         r.ok('check_service_name:whole-name-equality')
     if not cmp_ids and not any(v['instance'] == 'check_service_name:comparator' for v in r.violations):
         r.violation('check_service_name:comparator', cs.name, H, cs.line, 'no comparison of service_name with Name found')
+    # the reviewed comparators really are whole-string equality
+    lib.whole_string_equality(prog, r)
     ex_fn = prog.fn('exec_for_correct_user', H)
     lib.must_precede(ex_fn, r, only('execv'), [g('switch_user', lambda c: lib.arg_is_param(c, 0, 'user'))])
     cb = prog.fn('check_bus_name', H)
